@@ -41,11 +41,10 @@ def props_of(labels):
     return sorted(set(l.split('.')[0] for l in labels))
 
 
-def generate(unit):
+def generate(unit, opts=None):
     os.makedirs(GEN, exist_ok=True)
     out = os.path.join(GEN, unit + '.rs')
-    extract._src_cache.clear()
-    return extract.generate(os.path.join(VERIF, 'contracts', unit + '.rs.in'), out), out
+    return extract.generate(os.path.join(VERIF, 'contracts', unit + '.rs.in'), out, opts), out
 
 
 def run_verus(path, rlimit=None, seed=None, timeout=1500, threads=None):
@@ -213,13 +212,19 @@ def scan_assumptions(genpath):
     return inv, sorted(set(items)), sorted(set(ext))
 
 
-def process_unit(unit, seed=None, rlimit=None, reseed=0, inline=None):
-    """Extract + verify one unit.  Returns a dict with status in {'ok','failed','undecided'}."""
-    r = dict(unit=unit, status='ok', failures=[], undecided=[], functions={}, labels={}, meta=None, wall=0.0, auto_inlined=inline or [])
-    extract.AUTO_INLINE = list(inline or [])
+def process_unit(unit, seed=None, rlimit=None, reseed=0, inline=None, relax=None, depth=0):
+    """Extract + verify one unit.  Returns a dict with status in {'ok','failed','undecided'}.
+    relax=None is the strict attempt.  relax=[...] is the robust re-attempt after a lost anchor / front-end rejection inside one
+    function: hints with lost anchors are left out, functions whose rules fail (and the listed ones) are taken contract-only; the
+    obligations of those functions are then *undecided*, everything else in the unit is decided as usual."""
+    r = dict(unit=unit, status='ok', failures=[], undecided=[], functions={}, labels={}, meta=None, wall=0.0, auto_inlined=inline or [],
+             isolated={}, dropped_hints={})
+    opts = dict(auto_inline=list(inline or []), drop_lost_hints=relax is not None, isolate=relax is not None, force_stub=set(relax or []))
     try:
-        meta, path = generate(unit)
+        meta, path = generate(unit, opts)
     except extract.ExtractError as e:
+        if relax is None:
+            return process_unit(unit, seed=seed, rlimit=rlimit, reseed=reseed, inline=inline, relax=[], depth=depth + 1)
         r['status'] = 'undecided'
         r['undecided'].append('extraction: %s' % e)
         return r
@@ -230,6 +235,9 @@ def process_unit(unit, seed=None, rlimit=None, reseed=0, inline=None):
     meta['linemap'] = {str(k): v for k, v in meta['linemap'].items()}
     r['meta'] = meta
     r['path'] = path
+    r['isolated'] = meta.get('isolated') or {}
+    r['dropped_hints'] = meta.get('dropped_hints') or {}
+    r['outside_subset'] = {f['name']: f['outside_subset'] for f in meta['functions'] if f.get('outside_subset')}
     r['labels'] = {('%s|%s' % k): v for k, v in unit_labels(meta).items()}
     v = run_verus(path, rlimit=rlimit, seed=seed)
     r['wall'] = v['wall']
@@ -244,11 +252,23 @@ def process_unit(unit, seed=None, rlimit=None, reseed=0, inline=None):
         unknown = set()
         for d in v['diags']:
             if d.get('level') == 'error':
-                m = re.search(r'no method named `(\w+)` found|cannot find function `(\w+)` in this scope|no function or associated item named `(\w+)` found', d.get('message', ''))
+                m = re.search(r'no method named `(\w+)` found|cannot find function `(\w+)` in this scope|no function or associated item named `(\w+)` found|no associated function or constant named `(\w+)` found', d.get('message', ''))
                 if m:
                     unknown.add(next(g for g in m.groups() if g))
         if unknown:
-            return process_unit(unit, seed=seed, rlimit=rlimit, reseed=reseed, inline=sorted(unknown))
+            return process_unit(unit, seed=seed, rlimit=rlimit, reseed=reseed, inline=sorted(unknown), relax=relax, depth=depth + 1)
+    # a front-end rejection located inside one function under contract: take that function contract-only and decide the rest
+    if depth < 4:
+        fe_fns = set()
+        for d in v['diags']:
+            if d.get('level') == 'error' and not d.get('message', '').startswith('aborting due to'):
+                c = classify(d, meta, path)
+                if c['kind'] == 'frontend' and c['fn'] and not c['fn'].startswith('vacuity_canary') and c['fn'] not in (relax or []):
+                    full = [f['name'] for f in meta['functions'] if f['name'] == c['fn'] or f['name'].endswith('::' + c['fn'])]
+                    if full:
+                        fe_fns.add(full[0])
+        if fe_fns:
+            return process_unit(unit, seed=seed, rlimit=rlimit, reseed=reseed, inline=inline, relax=sorted(set(relax or []) | fe_fns), depth=depth + 1)
     canary_failed = False
     for d in v['diags']:
         if d.get('level') != 'error':
@@ -346,7 +366,20 @@ def decide(pid, units, known, baseline):
             undec.extend('%s: %s' % (u['unit'], x) for x in u['undecided'])
             continue
         failed_here = set()
+        # functions that could not be brought under contract on this tree: their obligations are undecided, the rest is decided
+        for f, info in sorted((u.get('isolated') or {}).items()):
+            ls = [l for l in (info.get('labels') or []) if l.split('.')[0] == pid]
+            if ls or pid == 'C06':
+                undec.append('%s: %s is not under contract on this tree (%s): obligations %s undecided' % (
+                    u['unit'], f, (info.get('reason') or 'front end rejects its body')[:160], ', '.join(ls) or 'C06.side'))
         for c in u['failures']:
+            short = c['fn'] or ''
+            full = [k for k in list((u.get('dropped_hints') or {})) + list((u.get('outside_subset') or {})) if k == short or k.endswith('::' + short)]
+            if full and (pid == 'C06' or [l for l in c['labels'] if l.split('.')[0] == pid] or (not c['labels'] and short in set(fn for fn, _ in labs))):
+                why = ('uses %s, which Verus handles imprecisely (tools/subset_probes)' % ', '.join(u['outside_subset'][full[0]])
+                       if full[0] in (u.get('outside_subset') or {}) else 'proof hints lost their anchors (%s)' % '; '.join(u['dropped_hints'][full[0]])[:160])
+                undec.append('%s: a proof step failed in %s, but the function %s: undecided' % (u['unit'], short, why))
+                continue
             mine = [l for l in c['labels'] if l.split('.')[0] == pid]
             side = pid == 'C06' and c06_side(c)
             if mine or side:
